@@ -451,6 +451,32 @@ func c05Slots(c *Ctx, k *core) {
 				}
 			}
 		}
+		// ... or the index was found by a slot-finder helper applied to (slots, update.source) and tested non-negative
+		if okAddr && !okGuard {
+			if call, ok := idx.(*ssa.Call); ok {
+				if h := staticCallee(call); h != nil && len(call.Call.Args) == 2 && slotFinder(h, fSlotSrc) {
+					_, srcOK := isFieldLoad(call.Call.Args[1], fUpdSrc)
+					if call.Call.Args[0] == ia.X && srcOK {
+						for _, ec := range condsDominating(st.Block()) {
+							b, ok := ec.Cond.(*ssa.BinOp)
+							if !ok {
+								continue
+							}
+							// idx >= 0, idx > -1, idx != -1, 0 <= idx (and their negated forms on the false edge)
+							lo, isLo := constInt(b.Y)
+							if b.X != idx || !isLo {
+								continue
+							}
+							switch {
+							case b.Op == token.GEQ && lo == 0 && ec.Val, b.Op == token.GTR && lo == -1 && ec.Val, b.Op == token.NEQ && lo == -1 && ec.Val,
+								b.Op == token.LSS && lo == 0 && !ec.Val, b.Op == token.EQL && lo == -1 && !ec.Val, b.Op == token.LEQ && lo == -1 && !ec.Val:
+								okGuard = true
+							}
+						}
+					}
+				}
+			}
+		}
 		switch {
 		case !isUpd:
 			c.bad("slot-by-identity", name, st.Pos(), "a slot is overwritten with something other than the reported value (%s)", canon(st.Val))
@@ -740,4 +766,64 @@ func c05FromLoad(v ssa.Value, ld *ssa.Call) bool {
 		return false
 	}
 	return rec(v)
+}
+
+// slotFinder: h(slots []sourceValue, src Source) int returns either a negative constant or an index i whose
+// return is dominated by src == slots[i].source (the range key of its own scan over the slots parameter).
+func slotFinder(h *ssa.Function, fSlotSrc *types.Var) bool {
+	h = origin(h)
+	if len(h.Blocks) == 0 || len(h.Params) != 2 {
+		return false
+	}
+	slots, src := ssa.Value(h.Params[0]), ssa.Value(h.Params[1])
+	found := false
+	for _, r := range returnsOf(h) {
+		rv := retVals(r)
+		if len(rv) != 1 {
+			return false
+		}
+		if n, isC := constInt(rv[0]); isC {
+			if n >= 0 {
+				return false
+			}
+			continue
+		}
+		idx := rv[0]
+		ok := false
+		for _, ec := range condsDominating(r.Block()) {
+			b, isB := ec.Cond.(*ssa.BinOp)
+			if !isB || b.Op != token.EQL || !ec.Val {
+				continue
+			}
+			isSlotSrc := func(v ssa.Value) bool {
+				base, ok := isFieldLoad(v, fSlotSrc)
+				if !ok {
+					return false
+				}
+				if ia, ok := base.(*ssa.IndexAddr); ok {
+					return ia.X == slots && ia.Index == idx
+				}
+				if al, ok := base.(*ssa.Alloc); ok {
+					for _, rr := range *al.Referrers() {
+						if st, ok := rr.(*ssa.Store); ok && st.Addr == al {
+							if ld, ok := st.Val.(*ssa.UnOp); ok && ld.Op == token.MUL {
+								if ia, ok := ld.X.(*ssa.IndexAddr); ok && ia.X == slots && ia.Index == idx {
+									return true
+								}
+							}
+						}
+					}
+				}
+				return false
+			}
+			if (b.X == src && isSlotSrc(b.Y)) || (b.Y == src && isSlotSrc(b.X)) {
+				ok = true
+			}
+		}
+		if !ok {
+			return false
+		}
+		found = true
+	}
+	return found
 }
